@@ -41,7 +41,10 @@ class VDaemon(SV.Daemon):
         m = self.vmode
         if m["mode"] == "raise":
             exc = {"SecurityError": E.SecurityError, "ValueError": ValueError, "KeyError": KeyError,
-                   "Custom": CustomDenied, "Exception": Exception}[m["exc"]]
+                   "Custom": CustomDenied, "Exception": Exception, "PermissionError": PermissionError,
+                   "AssertionError": AssertionError}[m["exc"]]
+            if m.get("bare"):
+                raise exc()          # an exception without any message is still a refusal
             raise exc("VMSG-%s" % m["exc"])
         if m["mode"] == "return":
             if m["ret"] == "none":
@@ -76,6 +79,7 @@ def _cur_conn():
     return getattr(getattr(c, "sock", None), "conn", None)
 
 
+_CODES = None
 DEFINITE_FAIL_BASES = ("invoke", "boom", "ping", "ow", "batch", "unknown_member", "private_member", "gen", "blob", "daemon_ping")
 
 
@@ -88,7 +92,7 @@ class PreHandshakeWorld(World):
             "time (virtual clock)", "raw scripted peers"]
     PROBES = ["m1_not_connect", "m1_unknown_serializer", "m1_unknown_object", "m1_bad_shape", "validator_raised", "validator_odd_return",
               "pipelined_after_fail", "pipelined_after_ok", "connectfail_seen", "connectok_seen", "legit_ok", "m1_truncated",
-              "m1_mutated", "multiplex", "thread"]
+              "m1_mutated", "multiplex", "thread", "validator_bare_exception", "unregister_raced", "garbage_bad_prefix"]
     RULE = ("plan = (server type, COMMTIMEOUT, validator behaviour, 1-3 raw peers each with first message spec + 0-3 pipelined message "
             "specs sent in one write or several, optional legitimate client); distinct = distinct interleaving digest; "
             "non-trivial = at least one peer's first message was not a pristine accepted CONNECT")
@@ -96,7 +100,7 @@ class PreHandshakeWorld(World):
                    "pre-connected socket pairs (exempt by design) are not used",
                    "validator exceptions have an ordinary __str__",
                    "Daemon.get_metadata called by the handshake itself is part of the handshake, not an invocation on behalf of the peer"]
-    QUICK_RUNS = 2500
+    QUICK_RUNS = 8000
     CHUNK = 100
     SHRINK_LISTS = ["peers", "peers.0.pipe", "peers.1.pipe", "peers.2.pipe"]
 
@@ -105,7 +109,9 @@ class PreHandshakeWorld(World):
         if vm < 0.45:
             validator = {"mode": "accept"}
         elif vm < 0.8:
-            validator = {"mode": "raise", "exc": rng.choice(["SecurityError", "ValueError", "KeyError", "Custom", "Exception"])}
+            validator = {"mode": "raise", "exc": rng.choice(["SecurityError", "ValueError", "KeyError", "Custom", "Exception",
+                                                             "PermissionError", "AssertionError"]),
+                         "bare": rng.random() < 0.3}
         else:
             validator = {"mode": "return", "ret": rng.choice(["none", "large", "unserialisable", "dict"])}
         peers = []
@@ -118,6 +124,9 @@ class PreHandshakeWorld(World):
                     m1["mut"] = [{"f": "ser", "v": rng.choice([0, 5, 42, 99, 255])}]
             elif r < 0.7:
                 m1 = gen_msgspec(rng, allow=["connect"])
+            elif r < 0.8:
+                m1 = {"base": "garbage", "obj": "tok", "ser": 1, "arg": 0, "seq": 0, "mut": [],
+                      "n": rng.choice([6, 7, 16, 39, 40, 41]), "seed": rng.randrange(1 << 30)}
             else:
                 m1 = gen_msgspec(rng)
             pipe = []
@@ -130,10 +139,30 @@ class PreHandshakeWorld(World):
                 pipe.append(p)
             peers.append({"m1": m1, "pipe": pipe, "split": rng.random() < 0.5, "gap": rng.choice([0, 0.01, 0.3]),
                           "start": rng.choice([0, 0.01, 0.2])})
-        return {"servertype": rng.choice(["thread", "multiplex"]), "commtimeout": rng.choice([0.0, 0.0, 1.5]),
+        unreg = None
+        if rng.random() < 0.3:
+            # an object that is unregistered while peers are connecting to it; some connect at that very instant, some later
+            at = rng.choice([0.0, 0.01, 0.05, 0.2])
+            unreg = {"at": at}
+            starts = [at, at, at + rng.choice([0.0, 0.001]), at + 3.0, at + rng.choice([0.5, 4.0])]
+            for k in range(rng.randint(2, 5)):
+                peers.append({"m1": {"base": "connect", "obj": "tmp", "ser": rng.choice([1, 2, 3, 4]), "arg": 0, "seq": 0, "mut": [], "hand": "valid"},
+                              "pipe": [{"base": "invoke", "obj": rng.choice(["tmp", "tok"]), "ser": 2, "arg": rng.randrange(1000), "seq": 1, "mut": []}],
+                              "split": True, "gap": rng.choice([0, 0.01, 0.1]), "start": starts[k]})
+        return {"servertype": rng.choice(["thread", "multiplex"]), "commtimeout": rng.choice([0.0, 0.0, 1.5]), "unregister": unreg,
+                "p_line": rng.choice([0.05, 0.15, 0.3]) if unreg else 0.0, "p_stall": rng.choice([0.0, 0.05, 0.1]) if unreg else 0.0,
                 "validator": validator, "peers": peers, "legit": rng.random() < 0.6, "serializer": rng.choice(SERIALIZERS),
                 "net": {"p_frag": rng.choice([0.0, 0.3, 0.8]), "shuffle_select": rng.random() < 0.5},
                 "p_block": rng.choice([0.0, 0.3, 1.0])}
+
+    def line_codes(self, plan):
+        if not plan.get("p_line") and not plan.get("sched", {}).get("p_line") and plan.get("sched", {}).get("mode") != "replay":
+            return ()
+        global _CODES
+        if _CODES is None:
+            from .. import sched as S
+            _CODES = S.code_objects(SV.DaemonObject.get_metadata, SV.Daemon.unregister, SV.Daemon.register)
+        return _CODES if plan.get("unregister") else ()
 
     # ------------------------------------------------------------------
     def scenario(self, ctx):
@@ -155,6 +184,10 @@ class PreHandshakeWorld(World):
         daemon._sched = sched
         victim = Victim(sched)
         uri = daemon.register(victim, "tok")
+        tmpobj = Victim(sched)
+        unreg = {"ret": None}
+        if plan.get("unregister"):
+            daemon.register(tmpobj, "tmp")
         addr = daemon.transportServer.sock.getsockname()
         loop = threading.Thread(target=daemon.requestLoop, name="daemon-loop")
         loop.start()
@@ -170,6 +203,7 @@ class PreHandshakeWorld(World):
                 r["end"] = "connect-failed:%s" % type(x).__name__
                 return
             r["conn"] = sk.conn
+            r["sent_stamp"] = sched.stamp()
             m1 = build_msg(_fix(spec["m1"]))
             rest = [build_msg(_fix(x)) for x in spec["pipe"]]
             r["m1_len"] = len(m1)
@@ -224,6 +258,12 @@ class PreHandshakeWorld(World):
             ths.append(threading.Thread(target=legit_client, name="legit"))
         for t in ths:
             t.start()
+        if plan.get("unregister"):
+            if plan["unregister"]["at"]:
+                sched.sleep(plan["unregister"]["at"])
+            daemon.unregister("tmp")
+            unreg["ret"] = sched.stamp()
+            ctx.probe("unregister_raced")
         for t in ths:
             t.join(900.0)
         if any(sched.sim_thread_of(t).state != "done" for t in ths):
@@ -235,6 +275,16 @@ class PreHandshakeWorld(World):
             ctx.disturbed = "daemon loop died: %r" % (lt.died,)
             return
         self._judge(ctx, plan, net, victim, daemon, results, legit)
+        if unreg["ret"] is not None:
+            # after unregister() returned, the id is unknown: no handshake for it may be accepted, no method of it may run
+            for stamp, conn, meth, tok in tmpobj._log:
+                if stamp > unreg["ret"]:
+                    ctx.violate("executed-after-unregister", meth, "%s(%r) ran on the unregistered object for connection %r" % (meth, tok, conn))
+            for pi, spec in enumerate(plan["peers"]):
+                r = results.get(pi)
+                if r and spec["m1"].get("obj") == "tmp" and r.get("sent_stamp", 0) > unreg["ret"] and r["received"]:
+                    if r["received"][0]["type"] == N.MSG_CONNECTOK and plan["validator"]["mode"] != "raise":
+                        ctx.violate("handshake-accepted-wrongly", "unregistered-object", "peer %d connected to 'tmp' after it was unregistered and got CONNECTOK" % pi)
 
     # ------------------------------------------------------------------
     def _judge(self, ctx, plan, net, victim, daemon, results, legit):
@@ -244,7 +294,7 @@ class PreHandshakeWorld(World):
             if m["dir"] == "s2c" and m["type"] == N.MSG_CONNECTOK and m["conn"] not in ok_stamp:
                 ok_stamp[m["conn"]] = m["stamp"]
         # clause 1: every execution happened after that connection's CONNECTOK
-        for stamp, conn, meth, tok in victim._log:
+        for stamp, conn, meth, tok in list(victim._log) + list(getattr(self, "_tmp_log", [])):
             if conn not in ok_stamp or ok_stamp[conn] > stamp:
                 ctx.violate("executed-before-handshake", meth, "method %s(%r) ran for connection %r which had no accepted handshake"
                             % (meth, tok, conn))
@@ -279,10 +329,12 @@ class PreHandshakeWorld(World):
             if first is not None and first["type"] == N.MSG_CONNECTFAIL:
                 ctx.probe("connectfail_seen")
                 reason = self._reason(first)
-                if not reason:
+                if not reason and vm.get("mode") == "raise" and vm.get("bare"):
+                    ctx.probe("validator_bare_exception")      # nothing to carry: the exception has no message
+                elif not reason:
                     ctx.violate("connectfail-without-reason", klass, "peer %d: CONNECTFAIL carries no reason (%r)" % (pi, reason))
                 else:
-                    if klass == "fail:validator" and "VMSG-" not in reason:
+                    if klass == "fail:validator" and "VMSG-" not in reason and not vm.get("bare"):
                         ctx.violate("connectfail-wrong-reason", "validator", "peer %d: validator raised VMSG-%s, reason is %r" % (pi, vm.get("exc"), reason[:120]))
                     if klass == "fail:unknown-object" and "unknown object" not in reason:
                         ctx.violate("connectfail-wrong-reason", "unknown-object", "peer %d: reason is %r" % (pi, reason[:120]))
@@ -296,6 +348,8 @@ class PreHandshakeWorld(World):
             if first is None and klass.startswith("fail") and self._verdict_reachable(m1, r) and not stall_possible:
                 # the daemon could decide, the peer stayed connected and read until EOF/timeout: it must have been told
                 ctx.violate("no-connectfail", klass, "peer %d: %s; the connection ended (%s) without any CONNECTFAIL" % (pi, klass, r["end"]))
+            if klass == "fail:bad-prefix":
+                ctx.probe("garbage_bad_prefix")
             if klass == "fail:not-connect":
                 ctx.probe("m1_not_connect")
             elif klass == "fail:unknown-serializer":
@@ -327,7 +381,13 @@ class PreHandshakeWorld(World):
     def _classify(m1, vm, pristine):
         """what the daemon must answer to this first message, where that is certain; else 'unknown'"""
         muts = m1.get("mut") or []
-        if m1.get("trunc") is not None or m1["base"] == "garbage":
+        if m1["base"] == "garbage" and m1.get("trunc") is None:
+            raw = build_msg(m1)
+            # six bytes that cannot start a Pyro message are "anything else": the daemon can and must refuse at once
+            if len(raw) >= 6 and (raw[:4] != b"PYRO" or raw[4:6] != (502).to_bytes(2, "big")):
+                return "fail:bad-prefix"
+            return "unknown"
+        if m1.get("trunc") is not None:
             return "unknown"
         if any(m["f"] in ("tag", "version", "magic") for m in muts) and len(muts) == 1:
             return "fail:bad-header"
@@ -346,6 +406,8 @@ class PreHandshakeWorld(World):
             return "fail:validator"
         if hand == "object_int" or m1["obj"] == "nope":
             return "fail:unknown-object"
+        if m1["obj"] == "tmp":
+            return "unknown"
         if vm["mode"] == "return" and vm["ret"] == "unserialisable":
             return "unknown"
         return "ok"
